@@ -210,6 +210,7 @@ def run(prog: Program, rep, tier: str) -> None:
     from . import c12
     c12.path_shape_rule(prog, rep)
     unbound_locals(prog, rep)
+    none_dereference(prog, rep)
     # restoring a solution applies the inverse stages in reverse order (un-scale what was scaled last ...): in the wrong order the
     # unscaling is applied to vectors that still carry the slack block and numpy raises a broadcasting ValueError at the very end
     from . import c04
@@ -649,6 +650,50 @@ def _guard_idiom(fn: ast.AST, name: str, use_stmt: ast.stmt, use_node: Optional[
                     if not between:
                         return f"`{name}` is assigned under `if {flag}:`; `{flag}` is only narrowed inside that block and `if not {flag}:` leaves before the use"
     return None
+
+
+def none_dereference(prog: Program, rep) -> None:
+    """A value the function itself tests against None (so it can be None there) must not be dereferenced where no such test
+    protects it: `None.attr` is an AttributeError escaping solve().  Single-binding values only (engine: nonecheck.py)."""
+    from .. import nonecheck
+    CANARY = """
+def bad(state, key, prev):
+    cur = state[key]
+    if prev is not None:
+        if cur is None or not (cur != prev).any():
+            return 0
+    return cur.sum()
+def good(state, key, prev):
+    cur = state[key]
+    if cur is None:
+        return 0
+    if prev is not None and not (cur != prev).any():
+        return 0
+    return cur.sum()
+def rebinding(x):
+    if x is None:
+        x = []
+    return x.copy()
+"""
+    got = {f.name: [v for v, _ in nonecheck.unguarded_derefs(f)] for f in ast.parse(CANARY).body}
+    if got != {"bad": ["cur"], "good": [], "rebinding": []}:
+        raise AnalysisError(f"None-dereference canary failed: {got}")
+    n = n_c = 0
+    for fi in prog.iter_functions():
+        if not prog.in_scope(fi) or not isinstance(fi.node, (ast.FunctionDef, ast.AsyncFunctionDef)):
+            continue
+        n += 1
+        cand = nonecheck.candidates(fi.node)
+        n_c += len(cand)
+        hits = nonecheck.unguarded_derefs(fi.node)
+        for v, node in hits:
+            rep.fail("none-dereference", fi.qualname, _stmt_text(fi, node),
+                     f"VIOLATED: `{U(node)[:60]}` dereferences `{v}` where it is not known to be non-None, but {fi.name} itself tests `{v}` against None "
+                     f"elsewhere (so it can be None): AttributeError / TypeError on that case", fi.loc(node))
+        if cand and not hits:
+            rep.ok("none-dereference", fi.short, f"values tested against None {sorted(cand)}: every dereference is under the non-None side of a test")
+    rep.pin("functions examined for None dereferences", n, 300)
+    rep.pin("values tested against None (single binding)", n_c, 10)
 
 
 def unbound_locals(prog: Program, rep) -> None:
